@@ -442,6 +442,98 @@ def ms8(p, res):
     return n
 
 
+# ------------------------------------------------------------------ MS-9
+def ms9(p, res):
+    """the scratch carver: every sub-slice it builds from the raw pointer of its buffer ends inside the buffer - offset (sum of the pointer `add`s) plus
+    length is at most `data.len()`, using a = checked_sub payload + b and x = saturating_sub(x, y) + y (no saturation) as the only arithmetic facts"""
+    n = 0
+    for f in sorted(p.lib_fns(), key=lambda x: x.uid):
+        if not f.uid.startswith("poulpy_cpu_ref::hal_defaults::scratch") or f.kind == "Closure":
+            continue
+        sites = [(bi, t) for bi, t in f.calls() if (f.callee_def(t) or {}).get("n") in ("slice_from_raw_parts_mut", "from_raw_parts_mut", "from_raw_parts")]
+        if not sites:
+            continue
+        flow = Flow(f)
+        sym = Sym(f, flow)
+        # does the pointer come from a slice parameter of this function? (otherwise: a cast of an already carved slice)
+        for bi, t in sites:
+            ptr = t["a"][0]
+            off = Poly()
+            cur = None
+            ok_chain = True
+            roots = list(flow.op_roots(ptr))
+            base = None
+            guard = 0
+            while roots and guard < 8:
+                guard += 1
+                r = roots[0]
+                if r[0] != "call":
+                    ok_chain = False
+                    break
+                t2 = f.blocks[r[1]]["t"]
+                cn = (f.callee_def(t2) or {}).get("n")
+                if cn == "add":
+                    off = off + sym.operand(t2["a"][1])
+                    roots = list(flow.op_roots(t2["a"][0]))
+                    continue
+                if cn in ("as_mut_ptr", "as_ptr"):
+                    rr = [x for x in flow.op_roots(t2["a"][0]) if x[0] == "param"]
+                    base = rr[0][1] if rr else None
+                    break
+                ok_chain = False
+                break
+            if not ok_chain or base is None or not f.local_ty(base)["s"].startswith(("&mut [u8]", "&[u8]")):
+                continue  # a re-typing cast of a slice that was carved elsewhere (length checked by SC-5 / SER rules)
+            n += 1
+            ln = sym.operand(t["a"][1])
+            end = off + ln
+            cap = Poly.atom(("f", "len", (Poly.atom(("p", base, ())).key(),)))
+            # arithmetic facts
+            subst = {}
+            for b2, t2 in f.calls():
+                cn = (f.callee_def(t2) or {}).get("n")
+                if cn == "checked_sub" and len(t2["a"]) == 2:
+                    a_, b_ = sym.operand(t2["a"][0]), sym.operand(t2["a"][1])
+                    payload = None
+                    for pl in (("0",), ("Some", "0"), ()):
+                        cand = Poly.atom(("call", f.uid, b2, pl)) if pl else Poly.atom(("call", f.uid, b2))
+                        if repr(cand) in repr(end) or cand.key() in [Poly.atom(x).key() for x in end.atoms()]:
+                            payload = cand
+                            break
+                    if payload is None:
+                        payload = Poly.atom(("call", f.uid, b2, ("0",)))
+                    subst[a_.key()] = payload + b_
+            def expand(poly, depth=0):
+                out = Poly()
+                for mono, c in poly.t.items():
+                    term = Poly.const(c)
+                    for a in mono:
+                        ak = Poly.atom(a).key()
+                        if ak in subst and depth < 4:
+                            term = term * expand(subst[ak], depth + 1)
+                        elif a[0] == "f" and a[1] == "saturating_sub" and len(a[2]) == 2 and depth < 4:
+                            # x = saturating_sub(x, y) + y  is used the other way round: keep the atom, it is replaced through `subst` of its own key
+                            term = term * Poly.atom(a)
+                        else:
+                            term = term * Poly.atom(a)
+                    out = out + term
+                return out
+            # capacity: len(data) = saturating_sub(len(data), y) + y for the saturating_sub atom that has len(data) as its first argument
+            cap_expr = cap
+            for a in list(end.atoms()) + [x for v in subst.values() for x in v.atoms()] + [x for k in subst for (mono, c) in k for x in mono]:
+                if a[0] == "f" and a[1] == "saturating_sub" and len(a[2]) == 2 and a[2][0] == cap.key():
+                    y = Poly(dict(a[2][1]))
+                    cap_expr = Poly.atom(a) + y
+            d = expand(cap_expr) - expand(end)
+            if d.nonneg_coeffs():
+                res.ok("MS-9", {"fn": f.pretty, "site": f.where(t["l"]), "offset": repr(off), "len": repr(ln), "capacity_minus_end": repr(d)})
+            else:
+                res.bad("MS-9", f.pretty, "carved-slice-exceeds-buffer",
+                        "%s builds a sub-slice at offset `%r` with `%r` bytes; capacity minus end = `%r` is not provably non-negative: the slice can reach past the buffer it was carved from"
+                        % (f.pretty, off, ln, d), site=f.where(t["l"]))
+    return n
+
+
 def run(res, tier):
     res.level = "other"
     res.explanation = ("Memory safety of every admissible call is a whole-program numeric fact; decided here are the structural invariants the unchecked accessors rely on: (MS-7) the raw "
@@ -453,6 +545,7 @@ def run(res, tier):
     res.rule("MS-1", "construction sites of layout types match an enumerated idiom; a re-view never alters a dimension of the object it wraps")
     res.rule("MS-2", "stores to n/cols/size/max_size/rows/cols_in/cols_out of layout types occur only in set_size (dominated by a max_size comparison) and read_from")
     res.rule("MS-7", "at_ptr/at_mut_ptr: offset(i = cols-1, j = size-1) + n <= n*cols*size with unconditional asserts on i, j; at/raw slice lengths are n / n*poly_count; poly_count = rows*cols*size")
+    res.rule("MS-9", "the scratch carver's sub-slices end inside the buffer: pointer offset + length <= data.len() as a polynomial inequality over usize quantities, with checked_sub / saturating_sub read as subtraction")
     res.rule("MS-8", "block-extraction kernels (reim4_extract_1blk_contiguous): the row count is bounded, through min/max structure, by the limbs of the source view as created by the take (followed up the call chain) or by len(src)/n")
     res.rule("SER-1", "leaf readers: tainted arithmetic / slice bounds validated (shared with C18)")
     res.rule("SER-2", "leaf readers: dimension commits validated against the receiver's buffer (shared with C18)")
@@ -472,6 +565,8 @@ def run(res, tier):
         res.floor("MS-2", "dimension stores", n2, 10)
         n7 = ms7(p, res)
         res.floor("MS-7", "accessor obligations", n7, 7)
+        n9 = ms9(p, res)
+        res.floor("MS-9", "sub-slices built by the scratch carver", n9, 2)
         n8 = ms8(p, res)
         res.floor("MS-8", "row-kernel call sites x source chains", n8, 6)
         # leaf readers
